@@ -106,6 +106,229 @@ pub fn profile() -> Profile {
     p
 }
 
+/// Liquidity lifecycles by construction: a block of deposits, then rounds in which withdrawals (whole coins, and -
+/// after ordinary transactions have split liquidity-token coins - parts), further deposits and swaps share blocks.
+pub fn arb_liquidity_plan(p: &Profile) -> impl proptest::strategy::Strategy<Value = crate::plan::Plan> {
+    use crate::plan::{arb_cfg, arb_tx, kind_byte, Step};
+    use proptest::prelude::*;
+    let p2 = p.clone();
+    (
+        arb_cfg(),
+        proptest::collection::vec(arb_tx(3, 3), 2..5),
+        proptest::collection::vec((proptest::collection::vec((arb_tx(3, 4), 0u8..10), 1..6), any::<u32>(), proptest::option::of((any::<i8>(), any::<u8>()))), 3..9),
+    )
+        .prop_map(move |(cfg, deposits, rounds)| {
+            let mut steps = vec![];
+            let mut first = vec![];
+            for mut t in deposits {
+                t.kind = kind_byte(&p2, 3, t.kind);
+                first.push(t);
+            }
+            steps.push(Step::Batch(first, 0));
+            steps.push(Step::Seal(None));
+            for (txs, order, action) in rounds {
+                let mut b = vec![];
+                for (mut t, what) in txs {
+                    let k = match what {
+                        0..=3 => 4, // withdrawal
+                        4 | 5 => 3, // deposit
+                        6 | 7 => 2, // swap
+                        _ => 0,     // ordinary (splits and merges liquidity-token coins among others)
+                    };
+                    t.kind = kind_byte(&p2, k, t.kind);
+                    b.push(t);
+                }
+                steps.push(Step::Batch(b, order));
+                steps.push(Step::Seal(action));
+            }
+            crate::plan::Plan { cfg, steps }
+        })
+}
+
+/// Hand-built scenarios at the edge of the u128 liquidity counter: two freshly created tokens A and B, a first
+/// deposit, then deposits whose sizes are chosen per case from the whole range 2^0..2^120 on either side (alone
+/// or two in one block), and finally withdrawals of whole liquidity coins. Everything goes through the public
+/// transaction path; the oracle is the same backing invariant over the real state.
+#[derive(Clone, Debug, serde::Serialize, serde::Deserialize)]
+pub struct ExtremeCase {
+    /// (exponent of the left amount, exponent of the right amount, jitter left, jitter right, same block as the previous one)
+    pub deposits: Vec<(u8, u8, u16, u16, bool)>,
+    pub withdraw_mask: u8,
+}
+
+pub fn arb_extreme() -> impl proptest::strategy::Strategy<Value = ExtremeCase> {
+    use proptest::prelude::*;
+    let expo = prop_oneof![0u8..121, Just(0u8), Just(1), Just(60), Just(100), Just(119), Just(120), 90u8..121];
+    (proptest::collection::vec((expo.clone(), expo, any::<u16>(), any::<u16>(), any::<bool>()), 2..7), any::<u8>())
+        .prop_map(|(deposits, withdraw_mask)| ExtremeCase { deposits, withdraw_mask })
+}
+
+fn amount(e: u8, jit: u16) -> u128 {
+    let e = (e as u32).min(120);
+    let base = 1u128 << e;
+    let v = match jit % 4 {
+        0 => base,
+        1 => base.saturating_sub(1).max(1),
+        2 => base + ((jit as u128) << e.saturating_sub(16)),
+        _ => base / 3 * 2 + 1,
+    };
+    v.min(1u128 << 120).max(1)
+}
+
+pub fn check_extreme(c: &ExtremeCase, st: &mut Stats, shard: usize) -> Check {
+    use crate::world::{CovSpec, GenesisSpec, Outcome as O};
+    use melstructs::{CoinData, CoinID, CoinValue, NetID, Transaction, TxKind};
+    st.eval();
+    let t = CovSpec::True;
+    let out = |d: Denom, v: u128| CoinData { covhash: t.hash(), value: CoinValue(v), denom: d, additional_data: Default::default() };
+    let g = GenesisSpec { net: NetID::Custom02, init: out(Denom::Mel, 1 << 80), init_cov: t.clone(), fee_pool: 0, fee_mult: 100, stakes: vec![] };
+    let mut w = World::new(g, shard);
+    let n = c.deposits.len();
+    let fee = 1u128 << 40;
+    let amts: Vec<(u128, u128)> = c.deposits.iter().map(|d| (amount(d.0, d.2), amount(d.1, d.3))).collect();
+    // token A with one coin per planned deposit, plus fee coins; token B likewise
+    let mut ta = Transaction::new(TxKind::Normal);
+    ta.inputs = vec![CoinID::zero_zero()];
+    ta.covenants = vec![t.bytes().into()];
+    for a in amts.iter() {
+        ta.outputs.push(out(Denom::NewCustom, a.0));
+    }
+    let n_fee = 2 * n + 2;
+    for _ in 0..n_fee {
+        ta.outputs.push(out(Denom::Mel, fee));
+    }
+    ta.fee = CoinValue((1u128 << 80) - fee * n_fee as u128);
+    let ha = ta.hash_nosigs();
+    let mut tb = Transaction::new(TxKind::Normal);
+    tb.inputs = vec![CoinID::new(ha, (n + n_fee - 1) as u8)];
+    tb.covenants = vec![t.bytes().into()];
+    for a in amts.iter() {
+        tb.outputs.push(out(Denom::NewCustom, a.1));
+    }
+    tb.fee = CoinValue(fee);
+    let hb = tb.hash_nosigs();
+    if !matches!(w.apply_batch(&[ta.clone(), tb.clone()]), O::Ok(())) {
+        st.exclude("funding-rejected");
+        return Ok(());
+    }
+    let (da, db) = (Denom::Custom(ha), Denom::Custom(hb));
+    let key = PoolKey::new(da, db);
+    let a_is_left = key.left() == da;
+    let mut seal_and_check = |w: &mut World, st: &mut Stats, what: &str| -> Check {
+        let pre = w.snap();
+        if !matches!(w.seal(None), O::Ok(_)) {
+            viol!("seal-panicked", "sealing panicked in an extreme-deposit scenario ({})", what);
+        }
+        let post = w.snap();
+        let mut held: BTreeMap<Denom, BigUint> = BTreeMap::new();
+        for c in post.coins.values() {
+            *held.entry(c.coin_data.denom).or_insert_with(BigUint::zero) += BigUint::from(c.coin_data.value.0);
+        }
+        if let Some(p) = post.pools.get(&key) {
+            let h = held.get(&key.liq_token_denom()).cloned().unwrap_or_default();
+            if h > BigUint::from(p.liqs) {
+                viol!(
+                    if p.liqs == u128::MAX { "liquidity-counter-saturated-at-u128-max" } else { "liquidity-tokens-exceed-liqs-near-counter-limit" },
+                    "{}: unspent liquidity tokens {} exceed the recorded liquidity {} (reserves {} / {})",
+                    what,
+                    h,
+                    p.liqs,
+                    p.lefts,
+                    p.rights
+                );
+            }
+            // issuance view of the same thing (C01): the block hands out at most as many liquidity tokens as the
+            // counter rose by
+            let held_before: BigUint = pre.coins.values().filter(|c| c.coin_data.denom == key.liq_token_denom()).map(|c| BigUint::from(c.coin_data.value.0)).sum();
+            let liqs_before = pre.pools.get(&key).map(|x| x.liqs).unwrap_or(0);
+            if h > held_before && p.liqs >= liqs_before && &h - &held_before > BigUint::from(p.liqs - liqs_before) {
+                viol!(
+                    "liquidity-issued-above-counter-increase",
+                    "{}: {} liquidity tokens were issued while the pool's counter rose from {} to {}",
+                    what,
+                    &h - &held_before,
+                    liqs_before,
+                    p.liqs
+                );
+            }
+            // the two tokens exist nowhere else: coins + reserve never exceed what was created
+            for (d, made, reserve) in [(da, &amts.iter().map(|x| BigUint::from(x.0)).sum::<BigUint>(), if a_is_left { p.lefts } else { p.rights }), (db, &amts.iter().map(|x| BigUint::from(x.1)).sum::<BigUint>(), if a_is_left { p.rights } else { p.lefts })] {
+                let total = held.get(&d).cloned().unwrap_or_default() + BigUint::from(reserve);
+                if total > *made {
+                    viol!("token-supply-above-what-was-created", "{}: {} of token {} exist (coins + reserve), only {} were created", what, total, d, made);
+                }
+            }
+            if p.liqs > u128::MAX / 2 {
+                st.class("liquidity-counter-above-2^127");
+            }
+            let before = pre.pools.get(&key).map(|x| x.liqs).unwrap_or(0);
+            if p.liqs > before {
+                st.class("extreme-deposit-settled");
+            } else if pre.txs.iter().any(|t| t.kind == TxKind::LiqDeposit) {
+                st.class("extreme-deposit-left-unsettled");
+            }
+        }
+        Ok(())
+    };
+    seal_and_check(&mut w, st, "funding block")?;
+    let mut liq_coins: Vec<(CoinID, usize)> = vec![];
+    let mut i = 0;
+    let mut digest = vec![];
+    while i < n {
+        let mut group = vec![i];
+        if i + 1 < n && c.deposits[i + 1].4 {
+            group.push(i + 1);
+        }
+        for &j in group.iter() {
+            let mut d = Transaction::new(TxKind::LiqDeposit);
+            d.inputs = vec![CoinID::new(ha, j as u8), CoinID::new(hb, j as u8), CoinID::new(ha, (n + 2 * j) as u8)];
+            d.covenants = vec![t.bytes().into()];
+            let (l, r) = if a_is_left { (out(da, amts[j].0), out(db, amts[j].1)) } else { (out(db, amts[j].1), out(da, amts[j].0)) };
+            d.outputs = vec![l, r];
+            d.data = key.to_bytes().to_vec().into();
+            d.fee = CoinValue(fee);
+            match w.apply_batch(std::slice::from_ref(&d)) {
+                O::Ok(()) => liq_coins.push((CoinID::new(d.hash_nosigs(), 0), j)),
+                O::Rejected(e) => {
+                    st.exclude("deposit-rejected");
+                    let _ = e;
+                }
+                O::Panicked(p) => viol!("apply-panicked", "an extreme deposit panicked: {:?}", p),
+            }
+        }
+        seal_and_check(&mut w, st, &format!("block with deposit(s) {:?} of amounts {:?}", group, group.iter().map(|j| amts[*j]).collect::<Vec<_>>()))?;
+        digest.extend(group.iter().map(|j| (c.deposits[*j].0, c.deposits[*j].1)));
+        i += group.len();
+    }
+    // withdrawals of whole liquidity coins, one block each
+    for (k, (coin, j)) in liq_coins.iter().enumerate() {
+        if c.withdraw_mask >> (k % 8) & 1 == 0 {
+            continue;
+        }
+        let snap = w.snap();
+        let cdh = match snap.coins.get(coin) {
+            Some(x) if x.coin_data.denom == key.liq_token_denom() && x.coin_data.value.0 > 0 => x.clone(),
+            _ => continue,
+        };
+        let mut wd = Transaction::new(TxKind::LiqWithdraw);
+        wd.inputs = vec![*coin, CoinID::new(ha, (n + 2 * j + 1) as u8)];
+        wd.covenants = vec![t.bytes().into()];
+        wd.outputs = vec![out(key.liq_token_denom(), cdh.coin_data.value.0)];
+        wd.data = key.to_bytes().to_vec().into();
+        wd.fee = CoinValue(fee);
+        match w.apply_batch(std::slice::from_ref(&wd)) {
+            O::Ok(()) => st.class("extreme-withdrawal-submitted"),
+            O::Rejected(e) => st.exclude(&format!("withdrawal-rejected: {}", e.chars().take(60).collect::<String>())),
+            O::Panicked(p) => viol!("apply-panicked", "a withdrawal panicked: {:?}", p),
+        }
+        seal_and_check(&mut w, st, &format!("block withdrawing the liquidity coin of deposit {}", j))?;
+    }
+    if liq_coins.len() >= 2 {
+        st.nontrivial(h64(format!("{:?}|{}", digest, c.withdraw_mask).as_bytes()));
+    }
+    Ok(())
+}
+
 pub fn run(ctx: &Ctx) -> (Outcome, String, Option<bool>) {
     let mut p = profile();
     if ctx.thorough() {
@@ -113,10 +336,35 @@ pub fn run(ctx: &Ctx) -> (Outcome, String, Option<bool>) {
         p.max_txs = 12;
     }
     let out = super::hist::run_histories(ctx, "liquidity-histories", p, ctx.scale(900, 9000), C16::default);
-    let rule = "Generated histories of up to 24 (quick) / 40 (thorough) steps rich in deposits (24%) and withdrawals (22%, always of everything a coin holds) plus swaps, new tokens and new pools, on every genesis class. Oracle after every seal, on the real state: MEL/SYM and MEL/ERG (and ERG/SYM once TIP-902) exist with both reserves > 0; the pool tree has no entry under a key no transaction named; for every pool the sum of unspent coins in its liquidity-token denomination <= the pool's recorded liquidity. Non-trivial = history with >=1 deposit and >=1 withdrawal settled on the same pool; distinct by the sequence of pool roots.".to_string();
+    let mut out = out;
+    let p2 = profile();
+    let prof2 = p2.clone();
+    out.absorb(crate::runner::run_sharded(
+        ctx,
+        "liquidity-lifecycles",
+        ctx.scale(500, 5000),
+        move || arb_liquidity_plan(&prof2),
+        |plan, st, shard| {
+            st.eval();
+            st.class("lifecycle-history");
+            crate::plan::run_plan(plan, &p2, &mut C16::default(), st, shard)
+        },
+    ));
+    out.absorb(crate::runner::run_sharded(ctx, "extreme-deposits", ctx.scale(1500, 20000), arb_extreme, |c, st, shard| {
+        let r = check_extreme(c, st, shard);
+        if st.want_sample() {
+            st.sample(|| serde_json::json!({"kind": "extreme-deposit scenario", "case": c}));
+        }
+        r
+    }));
+    let rule = "Third phase, scenarios at the edge of the u128 liquidity counter: two fresh tokens, 2-6 deposits with either side anywhere in 2^0..2^120 (alone or two per block), then withdrawals of whole liquidity coins; same backing invariant, plus coins + reserve of either token never exceed what was created. Second phase, liquidity lifecycles by construction: a block of 2-4 deposits, then 3-8 blocks mixing withdrawals (40%), deposits, swaps and ordinary transactions that split and merge liquidity-token coins. First phase: generated histories of up to 24 (quick) / 40 (thorough) steps rich in deposits (24%) and withdrawals (22%, always of everything a coin holds) plus swaps, new tokens and new pools, on every genesis class. Oracle after every seal, on the real state: MEL/SYM and MEL/ERG (and ERG/SYM once TIP-902) exist with both reserves > 0; the pool tree has no entry under a key no transaction named; for every pool the sum of unspent coins in its liquidity-token denomination <= the pool's recorded liquidity. Non-trivial = history with >=1 deposit and >=1 withdrawal settled on the same pool; distinct by the sequence of pool roots.".to_string();
     (out, rule, None)
 }
 
 pub fn replay(case: &serde_json::Value) -> Check {
+    if case.get("deposits").is_some() {
+        let c: ExtremeCase = serde_json::from_value(case.clone()).map_err(|e| crate::evidence::Violation::new("replay-format", e.to_string()))?;
+        return check_extreme(&c, &mut Stats::default(), 200);
+    }
     super::hist::replay_history(case, &profile(), C16::default())
 }
